@@ -93,6 +93,8 @@ def tdiff (r : StRes) (m : String) : StRes := { r with ok := false, note := if r
 /-- checks over one block: `a` before, `b` after -/
 def settleStep (r : StRes) (a b : SSnap) : StRes := Id.run do
   let mut r := r
+  -- whole loya of accumulated remainders are burned at once: the dust counter stays below one loya (10^6 units)
+  if b.dust ≥ 1000000 || b.dust < 0 then r := tfail r s!"dust counter is {b.dust} (one loya or more) after a block"
   let fundsMsg := b.xs.any (fun x => x.get "why" == "insufficient" && (x.kind == "wfr" || x.kind == "claim"))
   if fundsMsg then r := tfail r "a claim was rejected for lack of funds"
   -- execution
@@ -161,13 +163,14 @@ def settleStep (r : StRes) (a b : SSnap) : StRes := Id.run do
               let expStake := (if f.fromBond then m1 else 0) + m2
               let expLiquid := (if f.fromBond then 0 else m1)
               if stakedBefore > 0 then
-                if stakeGot != expStake || liquidGot < expLiquid then r := tdiff r s!"refund of {payer} for dispute {id}: stake changed by {stakeGot} (model {expStake}), liquid by {liquidGot} (model at least {expLiquid})"
+                -- a refund to stake is split over the tracked origins and truncated per entry: up to one loya per entry stays in the pool (C05)
+                if stakeGot > expStake || stakeGot + 8 < expStake || liquidGot < expLiquid then r := tdiff r s!"refund of {payer} for dispute {id}: stake changed by {stakeGot} (model {expStake}), liquid by {liquidGot} (model at least {expLiquid})"
               else if got + txFee != m1 + m2 then r := tdiff r s!"refund of {payer} for dispute {id}: holdings changed by {got + txFee}, model {m1} + {m2}"
               -- pro rata: within two loya of fee/firstFees of the pots
               let exact2 := f.amount * (pot + (if o == .support then d.slash else 0))
               let paid := if stakedBefore > 0 then stakeGot + expLiquid else got + txFee
               let dev := paid * firstFees - exact2
-              if dev > 0 || dev < -(2 * firstFees) then r := tfail r s!"refund of {payer} for dispute {id} is {paid}, not the pro-rata part of its fee {f.amount} of {firstFees}"
+              if dev > 0 || dev < -(10 * firstFees) then r := tfail r s!"refund of {payer} for dispute {id} is {paid}, not the pro-rata part of its fee {f.amount} of {firstFees}"
             | none => r := tfail r s!"refund paid before the vote of dispute {id} was executed"
       | _, none => if x.ok then r := tfail r s!"refund paid to {payer} for dispute {id} without a payer record (second claim?)"
       | none, _ => if x.ok then r := tfail r s!"refund paid for unknown dispute {id}"
